@@ -31,6 +31,7 @@ const sharedShimSrc = `package verifshim
 import (
 	"fmt"
 	"math"
+	"reflect"
 	"runtime"
 	"strings"
 	"sync"
@@ -98,6 +99,7 @@ func SameBits64(a, b float64) bool {
 func SameBits32(a, b float32) bool {
 	return math.Float32bits(a) == math.Float32bits(b) || (a != a && b != b)
 }
+func SameState(a, b any) bool { return reflect.DeepEqual(a, b) }
 func Observe(label string, v any) {
 	Observed = append(Observed, fmt.Sprintf("%s=%s", label, Describe(v)))
 }
@@ -223,6 +225,8 @@ func vWriteSetBegin()               {}
 func vWriteSetEnd(id string)        {}
 func vObserve(label string, v any)  { verifshim.Observe(label, v) }
 func vConcurrently(f func(i int))   { verifshim.Concurrently(f) }
+func vNote(c bool, id string)       {}
+func vSameState(a, b any) bool      { return verifshim.SameState(a, b) }
 `
 
 const driverSrc = `
